@@ -441,12 +441,32 @@ func checkC14(c *Ctx) {
 			regd[f] = true
 		}
 	}
-	allow := func(caller *ssa.Function, ok map[string]bool, handlersOK bool) bool {
+	var allowD func(caller *ssa.Function, ok map[string]bool, handlersOK bool, depth int) bool
+	allowD = func(caller *ssa.Function, ok map[string]bool, handlersOK bool, depth int) bool {
 		top := topFn(caller)
 		if ok[fnKey(top)] {
 			return true
 		}
-		return handlersOK && regd[top]
+		if handlersOK && regd[top] {
+			return true
+		}
+		// a helper all of whose callers are allowed
+		if depth <= 0 {
+			return false
+		}
+		edges := p.callersOf(top)
+		if len(edges) == 0 {
+			return false
+		}
+		for _, ed := range edges {
+			if !allowD(ed.Caller.Func, ok, handlersOK, depth-1) {
+				return false
+			}
+		}
+		return true
+	}
+	allow := func(caller *ssa.Function, ok map[string]bool, handlersOK bool) bool {
+		return allowD(caller, ok, handlersOK, 2)
 	}
 	for _, e := range p.callersOf(send) {
 		caller := e.Caller.Func
@@ -791,7 +811,7 @@ func checkChooseHost(c *Ctx) {
 			nret++
 			site := fmt.Sprintf("%s return#%d", fnKey(fn), nret)
 			v := ret.Results[0]
-			if derives(v, isRepl) {
+			if derivesIP(v, isRepl, 2) {
 				if iroCall != nil && condEdge(b, iroCall, true) {
 					c.OK("R5", site+" replica-under-readonly", ret.Pos(), "return value can derive from Replicas; dominated by IsReadOnly()==true")
 				} else {
@@ -820,90 +840,105 @@ func checkChooseHost(c *Ctx) {
 		if iroCall == nil {
 			c.Fail("R5", fnKey(fn)+" readonly-test", fn.Pos(), "host-choosing function never consults IsReadOnly()")
 		}
-		// strategy gate: every path from entry to a Replicas access crosses the true edge of (strategy == REPLICA|BOTH)
-		permit := map[*ssa.BasicBlock]map[int]bool{} // If block -> succ index that is a permitting edge
-		master := map[*ssa.BasicBlock]map[int]bool{}
-		eachInstr(fn, func(b *ssa.BasicBlock, i int, in ssa.Instruction) {
-			bo, ok := in.(*ssa.BinOp)
-			if !ok || (bo.Op != token.EQL && bo.Op != token.NEQ) {
-				return
-			}
-			var other ssa.Value
-			cv, isC := constInt(bo.Y)
-			other = bo.X
-			if !isC {
-				cv, isC = constInt(bo.X)
-				other = bo.Y
-			}
-			if !isC || !modType(other.Type(), "pb/config/protocol/redis", "ReadStrategy") {
-				return
-			}
-			for _, r := range *bo.Referrers() {
-				iff, ok := r.(*ssa.If)
-				if !ok {
-					continue
-				}
-				k := 0
-				if bo.Op == token.NEQ {
-					k = 1
-				}
-				m := permit
-				if cv == rsConst["ReadStrategy_MASTER"] {
-					m = master
-				}
-				if m[iff.Block()] == nil {
-					m[iff.Block()] = map[int]bool{}
-				}
-				m[iff.Block()][k] = true
-			}
-		})
+		// strategy gate: every path from entry to a Replicas access crosses the true edge of (strategy == REPLICA|BOTH);
+		// the access may live in the chooser or in a helper it calls
 		nacc := 0
-		eachInstr(fn, func(b *ssa.BasicBlock, i int, in ssa.Instruction) {
-			fa, ok := in.(*ssa.FieldAddr)
-			if !ok {
-				return
-			}
-			if f, _ := fieldAddr(fa); f != replF {
-				return
-			}
-			nacc++
-			site := fmt.Sprintf("%s replicas-access#%d strategy-gate", fnKey(fn), nacc)
-			path := findPath(entryPos(fn), pathQuery{
-				target: func(x ssa.Instruction) bool { return x == ssa.Instruction(fa) },
-				edge: func(bb *ssa.BasicBlock, k int) bool {
-					if permit[bb] != nil && permit[bb][k] {
-						return false // do not follow permitting edges
+		for _, gf := range append([]*ssa.Function{fn}, staticCalleesDeep(fn, 2)...) {
+			gf := gf
+			permit := map[*ssa.BasicBlock]map[int]bool{} // If block -> succ index that is a permitting edge
+			master := map[*ssa.BasicBlock]map[int]bool{}
+			eachInstr(gf, func(b *ssa.BasicBlock, i int, in ssa.Instruction) {
+				bo, ok := in.(*ssa.BinOp)
+				if !ok || (bo.Op != token.EQL && bo.Op != token.NEQ) {
+					return
+				}
+				var other ssa.Value
+				cv, isC := constInt(bo.Y)
+				other = bo.X
+				if !isC {
+					cv, isC = constInt(bo.X)
+					other = bo.Y
+				}
+				if !isC || !modType(other.Type(), "pb/config/protocol/redis", "ReadStrategy") {
+					return
+				}
+				for _, r := range *bo.Referrers() {
+					iff, ok := r.(*ssa.If)
+					if !ok {
+						continue
 					}
-					return true
-				},
+					k := 0
+					if bo.Op == token.NEQ {
+						k = 1
+					}
+					m := permit
+					if cv == rsConst["ReadStrategy_MASTER"] {
+						m = master
+					}
+					if m[iff.Block()] == nil {
+						m[iff.Block()] = map[int]bool{}
+					}
+					m[iff.Block()][k] = true
+				}
 			})
-			if path != nil {
-				c.Fail("R5", site, fa.Pos(), "replicas can be added to the candidates on a path that does not test the read strategy for REPLICA/BOTH: "+p.pathString(path))
-			} else {
-				c.OK("R5", site, fa.Pos(), "every path to the replica list crosses strategy==REPLICA or strategy==BOTH")
-			}
-			// and not reachable from the MASTER arm
-			for bb, ks := range master {
-				for k := range ks {
-					path := findPath(ipos{bb.Succs[k], -1}, pathQuery{target: func(x ssa.Instruction) bool { return x == ssa.Instruction(fa) }})
-					if len(bb.Succs[k].Preds) == 1 && path != nil {
-						c.Fail("R5", site+" master-arm", fa.Pos(), "replica list is reachable from the strategy==MASTER arm")
+			eachInstr(gf, func(b *ssa.BasicBlock, i int, in ssa.Instruction) {
+				fa, ok := in.(*ssa.FieldAddr)
+				if !ok {
+					return
+				}
+				if f, _ := fieldAddr(fa); f != replF {
+					return
+				}
+				nacc++
+				site := fmt.Sprintf("%s replicas-access#%d strategy-gate", fnKey(fn), nacc)
+				path := findPath(entryPos(gf), pathQuery{
+					target: func(x ssa.Instruction) bool { return x == ssa.Instruction(fa) },
+					edge: func(bb *ssa.BasicBlock, k int) bool {
+						if permit[bb] != nil && permit[bb][k] {
+							return false // do not follow permitting edges
+						}
+						return true
+					},
+				})
+				if path != nil {
+					c.Fail("R5", site, fa.Pos(), "replicas can be added to the candidates on a path that does not test the read strategy for REPLICA/BOTH: "+p.pathString(path))
+				} else {
+					c.OK("R5", site, fa.Pos(), "every path to the replica list crosses strategy==REPLICA or strategy==BOTH")
+				}
+				// and not reachable from the MASTER arm
+				for bb, ks := range master {
+					for k := range ks {
+						path := findPath(ipos{bb.Succs[k], -1}, pathQuery{target: func(x ssa.Instruction) bool { return x == ssa.Instruction(fa) }})
+						if len(bb.Succs[k].Preds) == 1 && path != nil {
+							c.Fail("R5", site+" master-arm", fa.Pos(), "replica list is reachable from the strategy==MASTER arm")
+						}
 					}
 				}
-			}
-			// the replicas come from the same slot entry
-			base := fa.X
-			okSame := false
-			if u, isU := base.(*ssa.UnOp); isU {
-				if ia, isIA := u.X.(*ssa.IndexAddr); isIA {
-					if sf, _ := fieldAddr(ia.X); sf == slotsF {
-						okSame = true
+				// the replicas come from the same slot entry (directly, or through the helper's parameter)
+				isSlotEntry := func(v ssa.Value) bool {
+					if u, isU := v.(*ssa.UnOp); isU {
+						if ia, isIA := u.X.(*ssa.IndexAddr); isIA {
+							if sf, _ := fieldAddr(ia.X); sf == slotsF {
+								return true
+							}
+						}
+					}
+					return false
+				}
+				okSame := isSlotEntry(fa.X)
+				if prm, isP := fa.X.(*ssa.Parameter); isP && gf != fn {
+					okSame = true
+					idx := paramIndex(gf, prm)
+					for _, ed := range p.callersOf(gf) {
+						if idx >= len(ed.Site.Common().Args) || !isSlotEntry(resolveCell(ed.Site.Common().Args[idx])) {
+							okSame = false
+						}
 					}
 				}
-			}
-			c.Check(okSame, "R5", fmt.Sprintf("%s replicas-access#%d same-entry", fnKey(fn), nacc), fa.Pos(),
-				"replicas are read from slots[slot] itself", "replica list is not read from the slot entry chosen for the key")
-		})
+				c.Check(okSame, "R5", fmt.Sprintf("%s replicas-access#%d same-entry", fnKey(fn), nacc), fa.Pos(),
+					"replicas are read from slots[slot] itself", "replica list is not read from the slot entry chosen for the key")
+			})
+		}
 		if nacc == 0 {
 			c.Note("host chooser %s reads no replica list (all traffic to masters)", fnKey(fn))
 		}
